@@ -382,13 +382,14 @@ def shape_shard(arg):
             continue
         has_pow = G.shape_pows(shape) > 0
         label = shape[0].name
-        if rotate_vecs == 2:
-            use = (G.MIXED_VECTORS[i % 2], vec_ids[i % len(vec_ids)])
-        elif rotate_vecs == 1:
-            use = (vec_ids[i % len(vec_ids)],)
-        elif rotate_vecs:
+        if rotate_vecs == "mixed2+1":
             use = G.MIXED_VECTORS + (vec_ids[i % len(vec_ids)],)
+        elif rotate_vecs == "mixed1+1":
+            use = (G.MIXED_VECTORS[i % 2], vec_ids[i % len(vec_ids)])
+        elif rotate_vecs == "1":
+            use = (vec_ids[i % len(vec_ids)],)
         else:
+            assert rotate_vecs == "all", rotate_vecs
             use = vec_ids
         for vi in use:
             ast = G.fill(shape, G.LEAF_VECTORS[vi])
@@ -480,19 +481,19 @@ def run(ctx: core.Ctx):
     ctx.pmap(depth1_shard, d1)
     _phase("depth1")
     # (c) shapes: (space, leaf vectors, all four environments?, one vector per shape in rotation?, shard size)
-    # rotation = the two mixed constant/variable vectors + one of the listed vectors per shape
+    # vectors per shape: "mixed2+1" = both mixed constant/variable vectors + one of the listed vectors in rotation;
+    # "mixed1+1" = one mixed + one listed; "1" = one listed; "all" = every listed vector
     if quick:
-        plan = [("d2-quick", (0, 1, 2, 3), False, True, 500), ("d2-ops", (0, 1, 4), True, False, 100)]
+        plan = [("d2-quick", (0, 1, 2, 3), False, "mixed2+1", 500), ("d2-ops", (0, 1, 4), True, "all", 100)]
     else:
-        # rotate: True = both mixed vectors + one listed vector per shape; 2 = one mixed + one listed; 1 = one listed
-        plan = [("d2-all-x-rep", (0, 1, 2, 3), False, True, 1000), ("d2-rep-x-all", (0, 1, 2, 3), False, 2, 1000),
-                ("d2-quick", (0, 1, 2, 3), True, True, 300), ("d2-ops", (0, 1, 2, 3, 4, 5), True, False, 100),
-                ("d3-ops", (0, 4, 1, 5), False, 1, 3000)]
+        plan = [("d2-all-x-rep", (0, 1, 2, 3), False, "mixed2+1", 1000), ("d2-rep-x-all", (0, 1, 2, 3), False, "mixed1+1", 1000),
+                ("d2-quick", (0, 1, 2, 3), True, "mixed2+1", 300), ("d2-ops", (0, 1, 2, 3, 4, 5), True, "all", 100),
+                ("d3-ops", (0, 4, 1, 5), False, "1", 3000)]
     shards = []
     bounds = {}
     for sname, vecs, all_envs, rotate, chunk in plan:
         n = space(sname).count()
-        bounds[sname] = {"shapes": n, "leaf_vectors": len(vecs), "vectors_per_shape": {True: 3, 2: 2, 1: 1, False: len(vecs)}[rotate],
+        bounds[sname] = {"shapes": n, "leaf_vectors": len(vecs), "vectors_per_shape": {"mixed2+1": 3, "mixed1+1": 2, "1": 1, "all": len(vecs)}[rotate],
                          "all_four_environments": all_envs}
         shards += [(quick, sname, a, b, vecs, all_envs, rotate) for a, b in ranges(n, chunk)]
     if os.environ.get("VERIF_SMOKE"):
